@@ -27,6 +27,8 @@ func main() {
 	switch os.Args[1] {
 	case "victim":
 		ec.VictimMain(os.Args[2:])
+	case "cont":
+		ec.ContMain(os.Args[2:])
 	case "worker":
 		kernel.ExitAfterResponse = func() bool { return ec.Poisoned }
 		kernel.WorkerMain(ec.Exec)
